@@ -48,8 +48,15 @@ func (s *sweeper) close() { os.RemoveAll(s.base) }
 // childRun executes calls[from:to) of the job file in one child; returns the outcomes it
 // reported, the id of a call that was started but not finished (-1 if none), whether the child
 // said DONE, and the tail of its stderr.
-func (s *sweeper) childRun(job string, from, to int) (outs []outcome, pending int, done bool, stderrTail string, err error) {
+func (s *sweeper) childRun(calls []call, from, to int) (outs []outcome, pending int, done bool, stderrTail string, err error) {
 	n := s.seq.Add(1)
+	// the child gets a job file holding only its own slice of the calls
+	job := filepath.Join(s.base, fmt.Sprintf("job-%d.json", n))
+	jb, _ := json.Marshal(calls[from:to])
+	if e := os.WriteFile(job, jb, 0o644); e != nil {
+		return nil, -1, false, "", lib.Infra("%v", e)
+	}
+	defer os.Remove(job)
 	prog := filepath.Join(s.base, fmt.Sprintf("progress-%d", n))
 	errPath := filepath.Join(s.base, fmt.Sprintf("stderr-%d", n))
 	defer os.Remove(prog)
@@ -67,7 +74,7 @@ func (s *sweeper) childRun(job string, from, to int) (outs []outcome, pending in
 	cmd := exec.Command("timeout", "-s", "KILL", strconv.Itoa(limit), self)
 	work := filepath.Join(s.base, "work")
 	cmd.Dir = work
-	cmd.Env = []string{"C17_CHILD=1", "C17_JOB=" + job, "C17_FROM=" + strconv.Itoa(from), "C17_TO=" + strconv.Itoa(to),
+	cmd.Env = []string{"C17_CHILD=1", "C17_JOB=" + job, "C17_FROM=0", "C17_TO=" + strconv.Itoa(to-from),
 		"C17_PROGRESS=" + prog, "C17_BASE=" + work,
 		"C17_DEADLINE_MS=" + strconv.Itoa(int(s.deadline.Milliseconds())), "C17_GRACE_MS=" + strconv.Itoa(int(s.grace.Milliseconds())),
 		"PATH=" + filepath.Join(s.base, "nopath"), "HOME=" + filepath.Join(s.base, "home"), "TMPDIR=" + filepath.Join(s.base, "tmp"),
@@ -154,12 +161,6 @@ func (s *sweeper) run(calls []call) ([]outcome, error) {
 	for i := range calls {
 		calls[i].ID = i
 	}
-	job := filepath.Join(s.base, fmt.Sprintf("job-%d.json", s.seq.Add(1)))
-	b, _ := json.Marshal(calls)
-	if err := os.WriteFile(job, b, 0o644); err != nil {
-		return nil, lib.Infra("%v", err)
-	}
-	defer os.Remove(job)
 	outs := make([]outcome, len(calls))
 	have := make([]bool, len(calls))
 	var mu sync.Mutex
@@ -189,7 +190,7 @@ func (s *sweeper) run(calls []call) ([]outcome, error) {
 			if stop {
 				return
 			}
-			os2, pending, done, stderr, err := s.childRun(job, from, to)
+			os2, pending, done, stderr, err := s.childRun(calls, from, to)
 			if err != nil {
 				setErr(err)
 				return
@@ -205,7 +206,7 @@ func (s *sweeper) run(calls []call) ([]outcome, error) {
 			if pending >= 0 {
 				// the child died during call `pending`: re-run it alone to attribute the crash
 				s.nDied.Add(1)
-				o, err := s.attribute(job, pending, stderr)
+				o, err := s.attribute(calls, pending, stderr)
 				if err != nil {
 					setErr(err)
 					return
@@ -242,9 +243,9 @@ func (s *sweeper) run(calls []call) ([]outcome, error) {
 }
 
 // attribute re-runs one call alone in a fresh child (up to 3 times).
-func (s *sweeper) attribute(job string, id int, firstStderr string) (outcome, error) {
+func (s *sweeper) attribute(calls []call, id int, firstStderr string) (outcome, error) {
 	for try := 0; try < 3; try++ {
-		os2, pending, _, stderr, err := s.childRun(job, id, id+1)
+		os2, pending, _, stderr, err := s.childRun(calls, id, id+1)
 		if err != nil {
 			return outcome{}, err
 		}
